@@ -887,14 +887,23 @@ def _corr_chains(ctx: Ctx, chains):
 def corr_r3(ctx: Ctx):
     m = M()
     rng = ctx.rng
-    _corr_ctor_nd(ctx)
+    part = m.part
     strict, plain = trim_scripts(rng)
-    m._corr_scripts(ctx, strict, strict=True, label="r3")
     allb, _ = b_scripts(rng)
     mag, _, _ = magnitude_scripts(rng)
-    m._corr_scripts(ctx, slack_scripts(rng) + plain + guard_scripts(rng) + allb + mag, label="r3")
-    _corr_chains(ctx, chain_cases(rng, ctx.n(12, 120)))
-    m._corr_scripts(ctx, dtype_scripts(rng), label="r3")
+    rest = slack_scripts(rng) + plain + guard_scripts(rng) + allb + mag
+    chains = chain_cases(rng, ctx.n(12, 120))
+    dts = dtype_scripts(rng)
+    with part(ctx, "r3-constructor", "corr"):
+        _corr_ctor_nd(ctx)
+    with part(ctx, "r3-trim-strict", "corr"):
+        m._corr_scripts(ctx, strict, strict=True, label="r3")
+    with part(ctx, "r3-thresholds-magnitudes", "corr"):
+        m._corr_scripts(ctx, rest, label="r3")
+    with part(ctx, "r3-chains", "corr"):
+        _corr_chains(ctx, chains)
+    with part(ctx, "r3-grid-dtype", "corr"):
+        m._corr_scripts(ctx, dts, label="r3")
 
 
 # ----------------------------------------------------------------------------------------------------------------
@@ -924,12 +933,13 @@ def _window(ctx, scripts):
     for cat, s in scripts:
         if len(s["calls"]) != 1 or len(s["tfs"]) != 1:
             continue
-        try:
-            bad = ns["c04_r3_window"](s, m.rt(), m.OneDGrid(), hp.HP, hp.hp_call, hp.mpmath)
-        except ValueError:
-            continue
-        ctx.tagc("oracle:r3:slack-window")
-        new += _report(ctx, cat, s["tfs"][0], bad, "c04_r3_window(payload, rt, OneDGrid, HP, hp_call, mpmath)", s)
+        with m.part(ctx, "r3-window:" + cat):
+            try:
+                bad = ns["c04_r3_window"](s, m.rt(), m.OneDGrid(), hp.HP, hp.hp_call, hp.mpmath)
+            except ValueError:
+                continue
+            ctx.tagc("oracle:r3:slack-window")
+            new += _report(ctx, cat, s["tfs"][0], bad, "c04_r3_window(payload, rt, OneDGrid, HP, hp_call, mpmath)", s)
     return new
 
 
@@ -937,15 +947,16 @@ def _chains(ctx, chains):
     m = M()
     hp = m._hp()
     for cat, chain in chains:
-        bad = _ns()["c04_r3_chain"](chain, m.rt(), m.OneDGrid(), hp.HP, hp.hp_call, hp.mpmath)
-        ctx.tagc("oracle:r3:" + cat.split(":")[0])
-        setup = [b for b in bad if b[0] == "chain-setup"]
-        if setup:
-            ctx.tagc("oracle:r3:chain-does-not-fit")
-            if __import__("os").environ.get("C04_R3_DEBUG"):
-                print("DOES-NOT-FIT", cat, setup[0][1][:400])
-            continue
-        _report(ctx, cat, chain["tfs"][-1], bad, "c04_r3_chain(payload, rt, OneDGrid, HP, hp_call, mpmath)", chain)
+        with m.part(ctx, "r3-chain:" + cat):
+            bad = _ns()["c04_r3_chain"](chain, m.rt(), m.OneDGrid(), hp.HP, hp.hp_call, hp.mpmath)
+            ctx.tagc("oracle:r3:" + cat.split(":")[0])
+            setup = [b for b in bad if b[0] == "chain-setup"]
+            if setup:
+                ctx.tagc("oracle:r3:chain-does-not-fit")
+                if __import__("os").environ.get("C04_R3_DEBUG"):
+                    print("DOES-NOT-FIT", cat, setup[0][1][:400])
+                continue
+            _report(ctx, cat, chain["tfs"][-1], bad, "c04_r3_chain(payload, rt, OneDGrid, HP, hp_call, mpmath)", chain)
 
 
 def _dtype(ctx, scripts):
@@ -953,27 +964,29 @@ def _dtype(ctx, scripts):
     for cat, sc in scripts:
         if len(sc["calls"]) != 1 or len(sc["tfs"]) != 1:
             continue
-        try:
-            bad = _ns()["c04_r3_dtype"](sc, m.rt(), m.OneDGrid())
-        except ValueError:
-            ctx.tagc("oracle:r3:grid-dtype-inadmissible")
-            continue
-        ctx.tagc("oracle:r3:grid-dtype")
-        _report(ctx, cat, sc["tfs"][0], bad[:1], "c04_r3_dtype(payload, rt, OneDGrid)", sc)
+        with m.part(ctx, "r3-dtype:" + cat):
+            try:
+                bad = _ns()["c04_r3_dtype"](sc, m.rt(), m.OneDGrid())
+            except ValueError:
+                ctx.tagc("oracle:r3:grid-dtype-inadmissible")
+                continue
+            ctx.tagc("oracle:r3:grid-dtype")
+            _report(ctx, cat, sc["tfs"][0], bad[:1], "c04_r3_dtype(payload, rt, OneDGrid)", sc)
 
 
 def oracle_r3(ctx: Ctx, budget: str):
+    """every block is an independent part (c04.part): an exception ends that block only"""
     m = M()
     rng = ctx.rng
     large = budget == "large" or ctx.thorough
     R, G = m.rt(), m.OneDGrid()
     ns = _ns()
+    part = m.part
 
     def pick(lst, k):
         return lst if large or len(lst) <= k else rng.sample(lst, k)
-    # class 7: thresholds (the property on every call; the window iff; the constructor alone)
+    # the generators first, in a fixed order (they only draw from rng; a part that fails later does not shift the others)
     sl = slack_scripts(rng)
-    _window(ctx, sl)
     strict, plain = trim_scripts(rng)
     _, judged_b = b_scripts(rng)
     # not judged against the 40-digit map: InverseRTransform(Knowles) one ulp above rmin (the inverse forms 1 - exp(-y), y = 7e-17:
@@ -981,52 +994,69 @@ def oracle_r3(ctx: Ctx, budget: str):
     # nor Knowles with a domain end within 1e-9 of x = 1 (1 - 2^-k (x + 1)^k cancels: the image of that end has 8 digits)
     guards = [g for g in guard_scripts(rng) if not g[0].startswith(("guard-threshold:inverse:KnowlesRTransform:ulp-inside", "guard-threshold:KnowlesRTransform:ulp-inside",
                                                                        "guard-threshold:KnowlesRTransform:1e-9-inside"))]
-    m._oracle_scripts(ctx, pick(strict + plain, 30) + pick(guards, 30) + judged_b + pick(sl, 12), label="r3", max_nodes=12)
-    _window(ctx, pick(strict + plain, 40))
-    for lo, hi in ((1024.0, 1025.0), (-65536.0, -65535.5)):
-        for f in FACT:
-            m._oracle_ctor(ctx, [lo - 1e-7 * f, lo + 0.25], [1.0, 1.0], (lo, hi))
-            m._oracle_ctor(ctx, [lo + 0.25, hi + 1e-7 * f], [1.0, 1.0], (lo, hi))
-    # class 8: magnitudes
+    thr = pick(strict + plain, 30) + pick(guards, 30) + judged_b + pick(sl, 12)
+    win2 = pick(strict + plain, 40)
     mag, homog, transl = magnitude_scripts(rng)
-    m._oracle_scripts(ctx, pick(mag, 30), label="r3", max_nodes=12)
+    mag_o = pick(mag, 30)
+    c9 = class9_scripts(rng)
+    chains = chain_cases(rng, 30 if large else 8)
+    dts = dtype_scripts(rng)
+    dts_o = dts if large else [d for d in dts if d[0].endswith("-points") or d[0].endswith("-both")] + \
+        pick([d for d in dts if not (d[0].endswith("-points") or d[0].endswith("-both"))], 40)
+    # class 7: thresholds (the window iff; the property on every call; the constructor alone)
+    with part(ctx, "r3-slack-window"):
+        _window(ctx, sl)
+    with part(ctx, "r3-thresholds"):
+        m._oracle_scripts(ctx, thr, label="r3", max_nodes=12)
+    with part(ctx, "r3-trim-window"):
+        _window(ctx, win2)
+    with part(ctx, "r3-constructor-window"):
+        for lo, hi in ((1024.0, 1025.0), (-65536.0, -65535.5)):
+            for f in FACT:
+                m._oracle_ctor(ctx, [lo - 1e-7 * f, lo + 0.25], [1.0, 1.0], (lo, hi))
+                m._oracle_ctor(ctx, [lo + 0.25, hi + 1e-7 * f], [1.0, 1.0], (lo, hi))
+    # class 8: magnitudes
+    with part(ctx, "r3-magnitudes"):
+        m._oracle_scripts(ctx, mag_o, label="r3", max_nodes=12)
     scales = [2.0 ** -996, 2.0 ** -166, 2.0 ** -40, 2.0 ** 40]
     for cat, s in homog:
-        try:
-            bad = ns["c04_r3_homogeneity"](s, scales, R, G)
-        except (ValueError, ZeroDivisionError):
-            continue
-        ctx.tagc("oracle:r3:homogeneity", len(scales))
-        _report(ctx, cat, s["tfs"][0], bad, f"c04_r3_homogeneity(payload, {scales!r}, rt, OneDGrid)", s)
+        with part(ctx, "r3-homogeneity:" + cat):
+            try:
+                bad = ns["c04_r3_homogeneity"](s, scales, R, G)
+            except (ValueError, ZeroDivisionError):
+                continue
+            ctx.tagc("oracle:r3:homogeneity", len(scales))
+            _report(ctx, cat, s["tfs"][0], bad, f"c04_r3_homogeneity(payload, {scales!r}, rt, OneDGrid)", s)
     for cat, s, shift in transl:
-        try:
-            bad = ns["c04_r3_translation"](s, shift, R, G)
-        except (ValueError, ZeroDivisionError):
-            continue
-        ctx.tagc("oracle:r3:translation")
-        _report(ctx, cat, s["tfs"][0], bad, f"c04_r3_translation(payload, {shift!r}, rt, OneDGrid)", s)
-    # classes 9 / 10: objects handed out, methods in either order, the option alternating on one object
-    for cat, s in class9_scripts(rng):
-        try:
-            bad = ns["c04_r3_handout"](s, R, G)
-            bad += ns["c04_r3_methods"](s, 0, R, G)
-            bad += ns["c04_r3_methods"](s, 1, R, G)
-        except (ValueError, ZeroDivisionError):
-            ctx.tagc("oracle:r3:class9-inadmissible")
-            continue
-        ctx.tagc("oracle:r3:handout+methods", 3)
-        for kind in sorted(set(b[0] for b in bad)):
-            sub = [b for b in bad if b[0] == kind]
-            call = ("c04_r3_handout(payload, rt, OneDGrid)" if kind.startswith("handout")
-                    else "c04_r3_methods(payload, 0, rt, OneDGrid) + c04_r3_methods(payload, 1, rt, OneDGrid)")
-            _report(ctx, "class9:" + cat, s["tfs"][0], sub[:1], call, s)
+        with part(ctx, "r3-translation:" + cat):
+            try:
+                bad = ns["c04_r3_translation"](s, shift, R, G)
+            except (ValueError, ZeroDivisionError):
+                continue
+            ctx.tagc("oracle:r3:translation")
+            _report(ctx, cat, s["tfs"][0], bad, f"c04_r3_translation(payload, {shift!r}, rt, OneDGrid)", s)
+    # classes 9 / 10: objects handed out, methods in either order, the option alternating on one object (three independent references)
+    for cat, s in c9:
+        for nm, fn, call in (("handout", lambda: ns["c04_r3_handout"](s, R, G), "c04_r3_handout(payload, rt, OneDGrid)"),
+                             ("methods-0", lambda: ns["c04_r3_methods"](s, 0, R, G), "c04_r3_methods(payload, 0, rt, OneDGrid)"),
+                             ("methods-1", lambda: ns["c04_r3_methods"](s, 1, R, G), "c04_r3_methods(payload, 1, rt, OneDGrid)")):
+            with part(ctx, f"r3-{nm}:{cat}"):
+                try:
+                    bad = fn()
+                except (ValueError, ZeroDivisionError):
+                    ctx.tagc("oracle:r3:class9-inadmissible")
+                    continue
+                ctx.tagc("oracle:r3:handout+methods")
+                for kind in sorted(set(b[0] for b in bad)):
+                    _report(ctx, "class9:" + cat, s["tfs"][0], [b for b in bad if b[0] == kind][:1], call, s)
     # classes 10 / 12: compositions
-    _chains(ctx, chain_cases(rng, 30 if large else 8))
+    with part(ctx, "r3-chains"):
+        _chains(ctx, chains)
     # class 2 for the grid argument: dtype / container of points and weights, every class, plain and wrapped
-    dts = dtype_scripts(rng)
-    _dtype(ctx, dts)
-    m._oracle_scripts(ctx, dts if large else [d for d in dts if d[0].endswith("-points") or d[0].endswith("-both")] + pick([d for d in dts if not (d[0].endswith("-points") or d[0].endswith("-both"))], 40),
-                      label="r3", max_nodes=6)
+    with part(ctx, "r3-grid-dtype"):
+        _dtype(ctx, dts)
+    with part(ctx, "r3-grid-dtype-property"):
+        m._oracle_scripts(ctx, dts_o, label="r3", max_nodes=6)
 
 
 def oracle_at_r3(ctx: Ctx, failure):
